@@ -392,7 +392,7 @@ def extended(run, drv):
         idx = G.gen_index_adv(rng, bs) if rng.random() < 0.25 else G.gen_index(rng, bs, p_bad=0.04, p_overrun=0.03)
         if sum(1 for t in G.items_of(idx) if t == G.ELL) > 1:
             continue
-        if not any(it[0] in ("tensor", "mask") for it in G.items_of(idx)):
+        if not any(it[0] in ("tensor", "mask", "int") for it in G.items_of(idx)):
             continue
         spec = S.gen_td_spec(rng, bs)
         cases.append((spec, idx))
